@@ -34,6 +34,16 @@ FUNCS = [
     ("htp/htp_util.c", "htp_parse_chunked_length"),
     ("htp/htp_util.c", "htp_treat_response_line_as_body"),
     ("htp/htp_util.c", "htp_normalize_uri_path_inplace"),
+    ("htp/htp_utf8_decoder.c", "htp_utf8_decode_allow_overlong"),
+    ("htp/htp_util.c", "htp_connp_is_line_folded"),
+    ("htp/bstr.c", "bstr_begins_with_mem"),
+    ("htp/bstr.c", "bstr_begins_with_mem_nocase"),
+    ("htp/bstr.c", "bstr_char_at"),
+    ("htp/bstr.c", "bstr_char_at_end"),
+    ("htp/bstr.c", "bstr_chop"),
+    ("htp/bstr.c", "bstr_chr"),
+    ("htp/bstr.c", "bstr_rchr"),
+    ("htp/bstr.c", "bstr_to_lowercase"),
     ("htp/htp_list.c", "htp_list_array_get"),
     ("htp/htp_list.c", "htp_list_array_pop"),
     ("htp/htp_list.c", "htp_list_array_push"),
@@ -42,6 +52,9 @@ FUNCS = [
     ("htp/htp_list.c", "htp_list_array_shift"),
     ("htp/htp_list.c", "htp_list_array_clear"),
 ]
+
+# file-scope constant tables of the library -> the tables the tabulating translator prints into Gen/Tables.lean (pinned there)
+GLOBAL_TABLES = {"utf8d": "Htp.Gen.utf8d", "utf8d_allow_overlong": "Htp.Gen.utf8dAllowOverlong"}
 
 LIBC = {"tolower": "tolowerI", "toupper": "toupperI", "isspace": "isspaceI", "isdigit": "isdigitI"}
 
@@ -283,6 +296,17 @@ class Fn:
                     t = "(%s %s)" % (w, t)
                     return E(t, "i", ea.binds + eb.binds, w)
                 return E(t, "i", ea.binds + eb.binds)
+            if op in ("&", "|", "<<", ">>"):
+                ea, eb = self.as_int(self.expr(a)), self.as_int(self.expr(b))
+                fn = {"&": "bandI", "|": "borI", "<<": "shlI", ">>": "shrI"}[op]
+                t = "(%s %s %s)" % (fn, ea.term, eb.term)
+                w = wrap_of(n["type"])
+                if w.startswith("u") and op == "<<":
+                    return E("(%s %s)" % (w, t), "i", ea.binds + eb.binds, w)
+                rng = None
+                if op == "&":
+                    rng = ea.rng if (ea.rng and ea.rng.startswith("u")) else (eb.rng if (eb.rng and eb.rng.startswith("u")) else None)
+                return E(t, "i", ea.binds + eb.binds, rng)
             raise Unsupported("binary %s" % op)
         if k == "ConditionalOperator":
             c, a, b = n["inner"]
@@ -309,6 +333,10 @@ class Fn:
                 if v and v[0] == "bstr" and n.get("name") == "len":
                     return E("s.%s_len" % v[1], "i", rng="u64")
             raise Unsupported("member %s" % n.get("name"))
+        if k == "ArraySubscriptExpr" and self.global_table(n["inner"][0]):
+            i = self.as_int(self.expr(n["inner"][1]))
+            v = self.fresh()
+            return E(v, "i", i.binds + [(v, "rdT %s %s" % (self.global_table(n["inner"][0]), i.term))], wrap_of(n["type"]))
         if k == "ArraySubscriptExpr" and self.mem_base(n["inner"][0]):
             m = self.mem_base(n["inner"][0])
             i = self.as_int(self.expr(n["inner"][1]))
@@ -326,6 +354,13 @@ class Fn:
         if k == "CallExpr":
             return self.call(n, None)[0]
         raise Unsupported("expression %s" % k)
+
+    def global_table(self, n):
+        while n["kind"] in ("ImplicitCastExpr", "CStyleCastExpr", "ParenExpr"):
+            n = n["inner"][0]
+        if n["kind"] == "DeclRefExpr" and n["referencedDecl"].get("kind") == "VarDecl" and n["referencedDecl"]["id"] not in self.var:
+            return GLOBAL_TABLES.get(n["referencedDecl"].get("name"))
+        return None
 
     def mem_base(self, n):
         """the state field of the mutable array behind the pointer expression `n` (None if it is not one)"""
@@ -691,6 +726,16 @@ class Fn:
             if not (v and v[0] == "bstr"):
                 raise Unsupported("bstr_adjust_len on something that is not a bstr parameter")
             return self.store("%s_len" % v[1], "u64", self.expr(n["inner"][2]))
+        if k == "ReturnStmt" and self.ret_ptr:
+            # a returned object pointer is reported as 0 (NULL) or 1 (the parameter itself)
+            t = n["inner"][0]
+            while t["kind"] in ("ImplicitCastExpr", "CStyleCastExpr", "ParenExpr"):
+                if t.get("castKind") == "NullToPointer":
+                    return "retS (fun s => some 0)"
+                t = t["inner"][0]
+            if t["kind"] == "DeclRefExpr" and self.var.get(t["referencedDecl"]["id"], ("",))[0] in ("bstr", "struct"):
+                return "retS (fun s => some 1)"
+            raise Unsupported("returned pointer")
         if k == "ReturnStmt":
             e = self.as_int(self.expr(n["inner"][0]))
             self.no_effects("a return")
@@ -890,7 +935,8 @@ class Fn:
         d = self.decl
         rt = d["type"]["qualType"].split("(")[0].strip()
         self.is_void = rt == "void"
-        self.ret_wrap = "i32" if self.is_void else wrap_of({"qualType": rt})
+        self.ret_ptr = rt.endswith("*") and ctype({"qualType": rt}) != "void *"
+        self.ret_wrap = "i32" if (self.is_void or self.ret_ptr) else wrap_of({"qualType": rt})
         body = None
         self.decl_params = []
         used = set()
